@@ -23,4 +23,77 @@ Lemma bindM_assoc {A B C} (c : M A) (f : A -> M B) (g : B -> M C) m :
   bindM (bindM c f) g m = bindM c (fun a => bindM (f a) g) m.
 Proof. unfold bindM. destruct (c m) as [[a m']|e]; reflexivity. Qed.
 
+(* ---- selector lists: first matching alternative wins (the IR-level laws of C05) ---- *)
+Section Loop.
+Variable mc : sel -> M bool.
+
+(* union: a list A ++ B matches iff A matches or else B matches *)
+Lemma sl_loop_nil_ne ne ne' B m : sl_loop mc false ne B m = sl_loop mc false ne' B m.
+Proof.
+  revert m. induction B as [|s B IH]; intros m; cbn [sl_loop].
+  - destruct ne, ne'; reflexivity.
+  - destruct s; [apply IH|]. unfold bindM. destruct (mc _ m) as [[[] m']|]; [reflexivity | apply IH | reflexivity].
+Qed.
+
+Lemma sl_loop_app ne ne1 ne2 A B m :
+  sl_loop mc false ne (A ++ B) m =
+  bindM (sl_loop mc false ne1 A) (fun a => if a then ret true else sl_loop mc false ne2 B) m.
+Proof.
+  revert m. induction A as [|s A IH]; intros m.
+  - cbn [app sl_loop]. unfold bindM, ret. destruct ne1; apply sl_loop_nil_ne.
+  - cbn [app sl_loop]. destruct s; [apply IH|].
+    unfold bindM. destruct (mc _ m) as [[[] m']|]; [reflexivity | | reflexivity].
+    specialize (IH m'). unfold bindM in IH. exact IH.
+Qed.
+
+(* complement: a negated non-empty list matches iff the positive list does not *)
+Lemma sl_loop_not ss m :
+  sl_loop mc true true ss m = bindM (sl_loop mc false true ss) (fun a => ret (negb a)) m.
+Proof.
+  revert m. induction ss as [|s ss IH]; intros m; [reflexivity|].
+  cbn [sl_loop]. destruct s; [apply IH|].
+  unfold bindM. destruct (mc _ m) as [[[] m']|]; [reflexivity | | reflexivity].
+  specialize (IH m'). unfold bindM in IH. exact IH.
+Qed.
+
+(* adding an alternative never removes a result *)
+Lemma sl_loop_monotone ne A B m m' :
+  sl_loop mc false ne A m = Ok (true, m') -> sl_loop mc false ne (A ++ B) m = Ok (true, m').
+Proof.
+  intros H. rewrite (sl_loop_app ne ne ne). unfold bindM. rewrite H. reflexivity.
+Qed.
+End Loop.
+
+(* at the level of match_selectors *)
+Theorem match_selectors_union f e p A B h m :
+  match_selectors bidi cx (S f) e p (SL (A ++ B) false h) m =
+  bindM (match_selectors bidi cx (S f) e p (SL A false h))
+        (fun a => if a then ret true else match_selectors bidi cx (S f) e p (SL B false h)) m.
+Proof.
+  cbn [match_selectors sl_is_not sl_is_html sl_sels].
+  destruct (h && negb (c_is_html cx)); [reflexivity|].
+  apply sl_loop_app.
+Qed.
+
+Theorem match_selectors_complement f e p ss h m : ss <> [] ->
+  (h && negb (c_is_html cx)) = false ->
+  match_selectors bidi cx (S f) e p (SL ss true h) m =
+  bindM (match_selectors bidi cx (S f) e p (SL ss false h)) (fun a => ret (negb a)) m.
+Proof.
+  intros Hne Hh. cbn [match_selectors sl_is_not sl_is_html sl_sels]. rewrite Hh.
+  destruct ss; [congruence|]. apply sl_loop_not.
+Qed.
+
+Theorem match_selectors_monotone f e p A B h m m' :
+  match_selectors bidi cx (S f) e p (SL A false h) m = Ok (true, m') ->
+  match_selectors bidi cx (S f) e p (SL (A ++ B) false h) m = Ok (true, m').
+Proof.
+  intros H. rewrite match_selectors_union. unfold bindM. rewrite H. reflexivity.
+Qed.
+
+(* X:is(A): sub-selector lists are a conjunction *)
+Theorem subselectors_conjunction {X} (f : X -> M bool) a l m :
+  allM_noshort f (a :: l) m =
+  bindM (f a) (fun x => bindM (allM_noshort f l) (fun y => ret (x && y))) m.
+Proof. reflexivity. Qed.
 End Facts.
